@@ -26,19 +26,28 @@ Record case := mk {
   drain_first : bool;         (* the closers start only after every packet was handled *)
   n_after : nat;              (* writes started after all closers returned and the loop ended *)
   cancel : cmode;
+  dops : list dop;            (* what the handler's Disconnected() does with its own connection (for a paired
+                                 scenario: what the OTHER connection's teardown does back to this one) *)
+  paired : bool;              (* a second connection is torn down by this one's Disconnected() and vice versa *)
   o_alive : bool;             (* the child process survived the scenario *)
   o_handled : list nat;       (* packet numbers for which HandlePacket was entered, in order *)
   o_disc : nat;               (* number of Disconnected() calls *)
   o_winners : nat;            (* explicit Close/CloseWith/CloseUnknown calls that did not answer ErrClosedConn *)
   o_after : list wres;        (* result classes of the late writes *)
   o_closed : bool;            (* netmc.Closed(conn) at the end *)
-  o_loop_returned : bool      (* startReadLoop returned *)
+  o_loop_returned : bool;     (* startReadLoop returned *)
+  o_closers_returned : bool;  (* every closing goroutine returned (nobody hangs in Close) *)
+  o_dres : list dres;         (* what the calls made from inside the teardown answered *)
+  o_pdisc : nat               (* paired: Disconnected() calls of the other connection's handler *)
 }.
+
+Definition dres_eqb (a b : dres) : bool :=
+  match a, b with DClosed, DClosed | DSkipped, DSkipped | DOther, DOther => true | _, _ => false end.
 
 Definition wres_eqb (a b : wres) : bool :=
   match a, b with WOk, WOk | WClosed, WClosed | WIO, WIO => true | _, _ => false end.
 
-Fixpoint list_eqb {A : Type} (eq : A -> A -> bool) (a b : list A) : bool :=
+Fixpoint list_eqb {A : Type} (eq : A -> A -> bool) (a b : list A) {struct a} : bool :=
   match a, b with
   | [], [] => true
   | x :: a', y :: b' => eq x y && list_eqb eq a' b'
@@ -60,6 +69,9 @@ Definition holds (c : case) : bool :=
   && forallb (wres_eqb WClosed) (o_after c)                   (* late writes report "closed" *)
   && Nat.eqb (length (o_after c)) (n_after c)
   && o_closed c && o_loop_returned c
+  && o_closers_returned c                                     (* no close call hangs *)
+  && list_eqb dres_eqb (o_dres c) (map res_of (dops c))        (* calls from inside the teardown see "closed" *)
+  && Nat.eqb (o_pdisc c) (if paired c then 1 else 0)          (* the paired session is torn down once, too *)
   && (if drain_first c
       then list_eqb Nat.eqb (o_handled c) (seq 0 (length (script c)))   (* the loop went on after every panic *)
       else is_prefix (o_handled c) (seq 0 (length (script c)))).
@@ -88,7 +100,7 @@ Definition model_run (c : case) :=
                ++ [O]
                ++ seq (S n0) (length post)
                ++ flat_map (fun i => [i; i; i]) (seq (S n1) (n_after c)) in
-  (n1, run (program impl_cfg (script c) gs) sched cinit).
+  (n1, run (program impl_cfg (script c) gs) sched (cinit_d (dops c))).
 
 Definition late_results (n1 : nat) (evs : list event) : list wres :=
   flat_map (fun e => match e with EWRes t r => if Nat.ltb n1 t then [r] else [] | _ => [] end) evs.
@@ -98,6 +110,8 @@ Definition model_agrees (c : case) : bool :=
   let evs := events r in
   Nat.eqb (o_disc c) (n_disc evs)
   && Bool.eqb (o_alive c) (negb (died evs))
+  && Bool.eqb (o_closers_returned c) (negb (stuck_ev evs))
+  && list_eqb dres_eqb (o_dres c) (dop_results evs)
   && list_eqb wres_eqb (o_after c) (late_results n1 evs)
   && Bool.eqb (o_closed c) (seen_closed (final_state r))
   && (negb (drain_first c) || list_eqb Nat.eqb (o_handled c) (handled evs)).
